@@ -189,6 +189,9 @@ def check_C02(tier, seed):
     # error records through the real front end: real classes, std rtti type ids, handler installed with set_error_handler
     lat = F.gen_registries("GenLat_P4any.cfg", out, module="GenLat.tla")
     real_class_programs("C02", lat, rng, out, 8 if tier == "quick" else 80, tier)
+    # the same question in a process whose dispatch data comes from the generated tables.hpp (update never runs): error cells
+    # of uni- and multi-methods and of next must still tell "no definition" from "ambiguous", with the right record
+    real_class_programs("C02", lat, rng, out, 2 if tier == "quick" else 20, tier, per=6, staged=(4,))
 
     def break_types(ev):
         for row in ev["rows"]:
@@ -639,6 +642,16 @@ def real_class_programs(pid, regs, rng, out, nprog, tier, per=8, staged=None):
                 for m, d, vp in dd:
                     if m == big:
                         style["def"][(m, d)] = same
+            # the second scenario of a program is also the "twin" scenario: its classes and the functions defining its multi-method
+            # are registered in a second policy as well (the same functions: signatures with virtual_<T&> do not name the policy)
+            if si == 1 and not staged:
+                style["twin"] = rng.choice([1, 2])
+                tm = n + 1
+                shapes[tm] = rng.choice(["VV", "VNV", "WV"])
+                style["meth"][tm] = "free"
+                for m, d, vp in dd:
+                    if m == tm:
+                        style["def"][(m, d)] = rng.choice(["api_fun", "api_fun", "api_fun0"])
             # registration objects that come and go at run time: one or two further records for classes that are registered already
             if not staged and rng.random() < 0.6:
                 style["dyn"] = [list(rng.choice(statements)) for _ in range(rng.randrange(1, 3))]
@@ -646,7 +659,7 @@ def real_class_programs(pid, regs, rng, out, nprog, tier, per=8, staged=None):
         name = "real%d" % pi
         sources[name] = LE.program(name, scen, staged=bool(staged))
     if staged:
-        return staged_run(pid, sources, staged, out, tier)
+        return staged_run(pid, sources, staged, out, tier, cfg={"C02": "TraceYomm2_errrec.cfg"}.get(pid, "TraceYomm2_plain.cfg"))
     res = gen.build_and_run(sources, extra=(["-DNDEBUG"] if tier == "quick" else []))
     F.validate_program_outputs(pid, res, sources, out, pid.lower() + "-real", {"C17": "TraceYomm2_report.cfg", "C02": "TraceYomm2_errrec.cfg"}.get(pid, "TraceYomm2_plain.cfg"), "TraceYomm2.tla")
     if tier == "thorough":
@@ -750,7 +763,7 @@ def plain_programs(pid, rng, out, nprog, tier, per=6):
                      "%d reports of an unregistered class" % (len(sources), per, n_unknown))
 
 
-def staged_run(pid, sources, stages, out, tier):
+def staged_run(pid, sources, stages, out, tier, cfg="TraceYomm2_plain.cfg"):
     """Two-stage builds of generated real-class programs: stage 1 runs update and writes slots.hpp (generated static
     offsets) and tables.hpp (encoded dispatch data) with the real generator; the later stages are the same source compiled
     with those headers.  Every stage logs like an ordinary real-class program and is validated by TraceYomm2."""
@@ -766,7 +779,7 @@ def staged_run(pid, sources, stages, out, tier):
         by_prog = {}
         for k in res:
             by_prog[k] = srcs[k.rsplit(".s", 1)[0]]
-        F.validate_program_outputs(pid, res, by_prog, out, pid.lower() + "-staged" + tag, "TraceYomm2_plain.cfg", "TraceYomm2.tla")
+        F.validate_program_outputs(pid, res, by_prog, out, pid.lower() + "-staged" + tag, cfg, "TraceYomm2.tla")
         for k, (rc, text) in res.items():
             st = int(k.rsplit(".s", 1)[1])
             if rc is not None:
@@ -1179,6 +1192,10 @@ def check_C14(tier, seed):
     vpairs = [["fast", "vec"], ["ind", "indvec"], ["chk", "map"], ["ind", "fast"], ["vec", "indfast"], ["map", "vec"]]
     scs = [iso_vptr_script(rng, "c14-vp-%d" % i, vpairs[i % len(vpairs)]) for i in range(120 if tier == "quick" else 2400)]
     F.execute_and_validate("C14", exe, scs, out, "c14-vp", TCFG)
+    # generated real-class programs hold seven policies side by side; one scenario per program registers its classes and the
+    # very functions that define its multi-method in a second policy too
+    lat = F.gen_registries("GenLat_P4any.cfg", out, module="GenLat.tla")
+    real_class_programs("C14", lat, rng, out, 8 if tier == "quick" else 80, tier)
     # error handlers: policy 0 gets a returning handler; erroring calls on policy 1 must still be thrown,
     # then an erroring call on policy 0 aborts
     hsc = []
@@ -1834,6 +1851,8 @@ def gen_type(rng, classes, templates, depth, used):
     if x < 0.86:
         t = rng.choice(STD_TEMPLATES + YOREL_TEMPLATES + templates)
         args = [gen_type(rng, classes, templates, depth - 1, used) for _ in range(rng.randrange(1, 4))]
+        if rng.random() < 0.3:      # non-type template arguments, as a demangler prints them: they name nothing
+            args.insert(rng.randrange(len(args) + 1), rng.choice(["3", "4ul", "-2l", "7u", "16", "1ull", "0x10", "42l"]))
         sp = rng.choice(["", "", " "])
         inner = ", ".join(args)
         if inner.endswith(">"):
